@@ -269,6 +269,12 @@ func (fr *Frame) specEnv(n *vnode, heap map[string]*Term) *SpecEnv {
 				case ssa.Instruction:
 					if f == fr && cv.Block() != nil && cv.Block() != n.b && cv.Block().Dominates(n.b) {
 						live = append(live, c)
+					} else if al, isAlloc := c.(*ssa.Alloc); isAlloc && f == fr && al.Block() == n.b {
+						// an address-taken local declared earlier in this very block (cut-point clauses):
+						// usable once it has been executed
+						if _, done := n.defs[al]; done {
+							live = append(live, c)
+						}
 					}
 				}
 			}
